@@ -71,6 +71,28 @@ ValidKinds(p, k) ==
 TreeInit == /\ parent \in ValidParents
             /\ kind \in {k \in [1..N -> Kinds] : ValidKinds(parent, k)}
 
+(* Documents with comments / processing instructions as siblings of the document element      *)
+(* (prolog and epilog; representable by lxml only).  At least one such sibling, so that this   *)
+(* universe is disjoint from TreeInit.                                                         *)
+ValidParentsDoc ==
+  {p \in [1..N -> 0..(N-1)] :
+      /\ p[1] = 0
+      /\ \A i \in 2..N : p[i] < i
+      /\ \A i \in 2..N : p[i] = i-1 \/ p[i] \in AncP(p, i-1)}
+ValidKindsDoc(p, k) ==
+  /\ Cardinality({i \in 1..N : p[i] = 0 /\ k[i] \in ElemKinds}) = 1
+  /\ \A i \in 1..N : p[i] = 0 => k[i] \in ElemKinds \cup {"c", "p"}
+  /\ \E i \in 1..N : p[i] = 0 /\ k[i] \in {"c", "p"}
+  /\ \A i \in 1..N : p[i] # 0 => k[p[i]] \in ElemKinds
+  /\ \A i \in 2..N : k[i] \in AttrKinds =>
+        /\ p[i] # 0
+        /\ (i-1 = p[i] \/ (k[i-1] \in AttrKinds /\ p[i-1] = p[i]))
+        /\ \A j \in 2..N : (j # i /\ p[j] = p[i]) => k[j] # k[i]
+  /\ \A i \in 2..N : k[i] = "t" =>
+        LET j == PrevSibling(p, k, i) IN j = 0 \/ k[j] # "t"
+TreeInitDoc == /\ parent \in ValidParentsDoc
+               /\ kind \in {k \in [1..N -> Kinds] : ValidKindsDoc(parent, k)}
+
 ---------------------------------------------------------------------------
 (* Structure *)
 Par(n)  == IF n = 0 THEN {} ELSE IF parent[n] = 0 THEN (IF HasDoc THEN {0} ELSE {}) ELSE {parent[n]}
